@@ -174,6 +174,28 @@ NOT_APPLICABLE = {
 PENDING = "no solver-based check has been built for this property yet in this session (planned: DESIGN.md section 3); nothing is claimed"
 
 
+EXTRA = {
+    "C02": " Also: which query values put nothing on the wire (is_non_empty_query), header/cookie negatability per location.",
+    "C03": " Also: _negative_type (which wrong types are offered), _negative_items, the Template's container labels. Known finding: a parameter with bounds but no type has no valid baseline value, yet the cases carrying it are labelled positive.",
+    "C04": " Also: empty / blank payloads declared as JSON.",
+    "C05": " Also: Failure identity (==, hash, dict/set membership) over 7 failure classes; the capability probe under every requests exception class; the source of the data shown for a failure.",
+    "C06": " Also: prepare_url on 12 percent-encoded path values; the query handed to the HTTP client for triples of 12 value shapes.",
+    "C07": " Also: filters on $ref'd parameters and the operation / link counts against what is offered.",
+    "C08": " Also: parameter names differing only by case; the YAML loader's construct_mapping on key nodes of any resolved tag.",
+    "C09": " Also: the printed 'Reproduce with' block (format_failures) for command text incl. newlines; sanitize_url with port / userinfo; the case is unchanged by producing its command.",
+    "C10": " Also: the body of into_step_input (falsy link values, arrays of objects in link bodies), trailing text after a reference name.",
+    "C11": " Also: the probing phase closes with one PhaseFinished under every requests exception class.",
+    "C12": " Also: the configured stateful_step_count (unbounded int) reaches the state machine settings.",
+    "C14": " Also: parameters fixed by the user are removed from the generator's schema (required or optional, any order); ignored_auth's probes leave the configured headers intact.",
+    "C15": " Also: multi-valued sensitive keys, URL port, HAR entries (URL, queryString, headers, cookies); redaction never touches the case that is sent.",
+    "C16": " Also: the HAR writer over 6 payload byte shapes (invalid UTF-8 included) and URLs with credentials.",
+    "C17": " Also: add_examples with unsendable examples at any position; oneOf / anyOf+oneOf / array-valued allOf examples; example-carrying parameters are removed from generation.",
+    "C18": " Also: _is_prefix_operation over 6 x 6 templates and id forms 7 / '7'; generated optional parameters suppress the availability claim.",
+    "C19": " Also: re-registration of the same function object; hooks (un)registered between two generated examples on all three scopes.",
+    "C20": " Also: the text written for Date / Time / DateTime scalars (years of every digit count).",
+}
+
+
 def main():
     ids = [json.loads(l)["id"] for l in open(os.path.join(ROOT, "properties.jsonl"))]
     checks = []
@@ -181,6 +203,7 @@ def main():
     for pid in ids:
         if pid in CHECKS:
             text, tech, ref = CHECKS[pid]
+            text = text + EXTRA.get(pid, "") + " Obligations added after the seeding rounds are tabulated in DESIGN.md section 8; the evidence file lists every function encoded, its bounds and stubs."
             checks.append({
                 "property_id": pid,
                 "quick_cmd": "./check %s --tier quick" % pid,
